@@ -181,7 +181,9 @@ async def copy_remote_to_remote(
             "chf",
             "-",
             "-C",
-            *(shlex.quote(part) for part in posixpath.split(src)),
+            shlex.quote(posixpath.dirname(src)),
+            "--",
+            shlex.quote(posixpath.basename(src)),
         ]
     if writer_command is None:
         writer_command = await utils.get_remote_to_remote_write_command(
@@ -432,7 +434,9 @@ class BaseConnector(Connector, FutureAware, ABC):
                 "chf",
                 "-",
                 "-C",
-                *(shlex.quote(part) for part in posixpath.split(src)),
+                shlex.quote(posixpath.dirname(src)),
+                "--",
+                shlex.quote(posixpath.basename(src)),
             ],
         )
 
